@@ -135,6 +135,12 @@ func (t *transaction) prepOp() (keyvalue.OpID, error) {
 	return op, nil
 }
 
+// reserveResult appends an empty result and returns its index
+func (t *transaction) reserveResult() int {
+	t.results = append(t.results, keyvalue.OpResult{})
+	return len(t.results) - 1
+}
+
 func (t *transaction) Get(path string) keyvalue.OpID {
 	return t.GetHandler(path, keyvalue.OpHandlerFunc(func(txn keyvalue.Transaction, result keyvalue.OpResult) error {
 		return nil
@@ -149,11 +155,12 @@ func (t *transaction) GetHandler(path string, handler keyvalue.OpHandler) keyval
 	}
 	record, err := t.store.Get(t.ctx, path)
 	result := keyvalue.OpResult{Op: op, Record: record, Err: err}
+	slot := t.reserveResult() // the handler may run more operations: keep the results in call order
 	err = handler.Handle(t, result)
 	if result.Err == nil && err != nil {
 		result.Err = err
 	}
-	t.results = append(t.results, result)
+	t.results[slot] = result
 	return op
 }
 
@@ -171,11 +178,12 @@ func (t *transaction) SetHandler(path string, src keyvalue.FileRecord, contents 
 	}
 	err = t.store.set(path, src, contents)
 	result := keyvalue.OpResult{Op: op, Err: err}
+	slot := t.reserveResult()
 	err = handler.Handle(t, result)
 	if result.Err == nil && err != nil {
 		result.Err = err
 	}
-	t.results = append(t.results, result)
+	t.results[slot] = result
 	return op
 }
 
